@@ -205,9 +205,33 @@ impl<'a> Explorer<'a> {
     }
 }
 
+/// Coercion alphabet: the same operand (through `var` and written in the rule) under every coercion
+/// family - parseFloat (+ *), Number (- / % comparisons max min), truthiness, string form, membership.
+/// Anything remembered about an operand by one family must not be seen by another.
+pub fn coercion_rules() -> Vec<Value> {
+    let a = json!({"var": "a"});
+    let mut r = vec![
+        json!({"+": [a, 1]}), json!({"==": [a, 12]}), json!({"*": [a, 1]}), json!({"<": [a, 13]}), json!({"-": [a, 1]}), json!({"max": [a]}),
+        json!({"!": [a]}), json!({"cat": [a]}), json!({"in": [a, [12, "12px", 16, 1000]]}), json!({"/": [a, 1]}), json!({"%": [a, 5]}), json!({"min": [a, 99]}),
+        json!({"!=": [a, 12]}), json!({"===": [a, 12]}), json!({"<=": [12, a]}), json!({">": [a, 11]}), json!({">=": [a, 12]}), json!({"!!": [a]}),
+        json!({"+": [a]}), json!({"*": [a]}), json!({"-": [a]}), json!({"substr": [a, 1]}), json!({"max": [a, 12]}), json!({"==": [a, a]}),
+    ];
+    for s in ["12px", " 12 ", "0x10", "1e3"] {
+        r.extend([json!({"+": [s, 1]}), json!({"==": [s, 12]}), json!({"<": [s, 13]}), json!({"-": [s, 1]}), json!({"max": [s]}), json!({"*": [s, 2]}), json!({"!=": [s, 16]}), json!({"min": [s, 1000]})]);
+    }
+    r
+}
+
+pub fn coercion_datas() -> Vec<Value> {
+    vec![json!({"a": "12px"}), json!({"a": " 12 "}), json!({"a": "0x10"}), json!({"a": "1e3"}), json!({"a": ""}), json!({"a": "1,2"}), json!({"a": [12]}), json!({"a": "\u{661}\u{662}"})]
+}
+
 pub fn run(ctx: &mut Ctx) {
-    let rules = rules();
-    let datas = datas();
+    run_alphabet(ctx, "main", rules(), datas(), 40, 3);
+    run_alphabet(ctx, "coercion", coercion_rules(), coercion_datas(), 12, 4);
+}
+
+fn run_alphabet(ctx: &mut Ctx, tag: &str, rules: Vec<Value>, datas: Vec<Value>, core_rule_count: usize, core_data_count: usize) {
     let mut calls = Vec::new();
     for ri in 0..rules.len() {
         for di in 0..datas.len() {
@@ -215,7 +239,7 @@ pub fn run(ctx: &mut Ctx) {
         }
     }
     let shared = shared_block();
-    let vio_path = std::env::temp_dir().join(format!("jlmc-hist-{}-{}.jsonl", std::process::id(), ctx.shard)).to_string_lossy().to_string();
+    let vio_path = std::env::temp_dir().join(format!("jlmc-hist-{}-{}-{}.jsonl", std::process::id(), ctx.shard, tag)).to_string_lossy().to_string();
     let _ = std::fs::remove_file(&vio_path);
     // the isolated outcome of every call: first call in a fresh snapshot of the initial state
     let mut isolated: Vec<Obs> = Vec::new();
@@ -273,15 +297,15 @@ pub fn run(ctx: &mut Ctx) {
     // all histories of depth 2 over the whole alphabet; in the thorough tier additionally all histories
     // of depth 3 over the core alphabet (the first 40 rules x the first 3 data)
     let max_depth = 2;
-    let core_rules = 40.min(rules.len());
-    let core: Vec<usize> = calls.iter().enumerate().filter(|(_, (ri, di))| *ri < core_rules && *di < 3).map(|(i, _)| i).collect();
+    let core_rules = core_rule_count.min(rules.len());
+    let core: Vec<usize> = calls.iter().enumerate().filter(|(_, (ri, di))| *ri < core_rules && *di < core_data_count).map(|(i, _)| i).collect();
     let mut ex = Explorer { progress: ctx.progress_addr(), calls: calls.clone(), rules, datas, isolated, shared, vio_path: vio_path.clone(), max_depth };
     let mut history = Vec::new();
     for c in 0..calls.len() {
         if !ctx.mine() {
             continue;
         }
-        ctx.tick_external(&json!({"history_first_call": c}));
+        ctx.tick_external(&json!({"history_alphabet": tag, "history_first_call": c}));
         ex.fork_visit(&mut history, c);
     }
     if ctx.tier_thorough {
@@ -295,7 +319,7 @@ pub fn run(ctx: &mut Ctx) {
             if !ctx.mine() {
                 continue;
             }
-            ctx.tick_external(&json!({"history_first_call_core": c}));
+            ctx.tick_external(&json!({"history_alphabet": tag, "history_first_call_core": c}));
             ex.fork_visit(&mut history, c);
         }
     }
@@ -303,12 +327,12 @@ pub fn run(ctx: &mut Ctx) {
     ctx.transitions += shared.transitions.load(Ordering::Relaxed);
     ctx.leaves += shared.leaves.load(Ordering::Relaxed);
     ctx.evaluations += shared.leaves.load(Ordering::Relaxed);
-    *ctx.subspaces.entry("history:call-after-history".into()).or_insert(0) += shared.leaves.load(Ordering::Relaxed);
+    *ctx.subspaces.entry(format!("history:{}:call-after-history", tag)).or_insert(0) += shared.leaves.load(Ordering::Relaxed);
     add_extra(ctx, "history_snapshots", shared.states.load(Ordering::Relaxed));
     add_extra(ctx, "history_fork_failures", shared.fork_failures.load(Ordering::Relaxed));
     ctx.extra.insert("history_max_depth".into(), json!(if ctx.tier_thorough { 3 } else { 2 }));
-    ctx.extra.insert("history_core_alphabet_calls_depth3".into(), json!(core.len()));
-    ctx.extra.insert("history_alphabet_calls".into(), json!(calls.len()));
+    ctx.extra.insert(format!("history_{}_core_alphabet_calls_depth3", tag), json!(core.len()));
+    ctx.extra.insert(format!("history_{}_alphabet_calls", tag), json!(calls.len()));
     if shared.fork_failures.load(Ordering::Relaxed) > 0 {
         ctx.fail("history:machinery", json!({"fork_failures": shared.fork_failures.load(Ordering::Relaxed)}), "every snapshot child exits normally".into(), "PANIC-like: a snapshot child died or fork failed".into(), None);
     }
@@ -323,7 +347,7 @@ pub fn run(ctx: &mut Ctx) {
     // every history is a distinct non-trivial case: count them by position hash
     let n = shared.leaves.load(Ordering::Relaxed);
     for i in 0..n.min(5_000_000) {
-        ctx.nontrivial.insert(crate::ctx::hash_str(&format!("hist-{}-{}", ctx.shard, i)));
+        ctx.nontrivial.insert(crate::ctx::hash_str(&format!("hist-{}-{}-{}", tag, ctx.shard, i)));
     }
     ctx.sample_force(json!({"history": [{"rule": ex.rules[0], "data": ex.datas[0]}, {"rule": ex.rules[0], "data": ex.datas[1]}], "oracle": "each call == its isolated outcome (value, Err-ness, log lines, inputs intact)"}));
 }
